@@ -3,7 +3,7 @@ package main
 // C02 supplement: root hashes of trees larger than the bounded exploration reaches (sizes and heights whose
 // varint encodings take more than one byte, long rotation chains). Fixed scenarios: n keys inserted in one of
 // three orders over several commits, then a third removed and a fifth updated over further commits; WorkingHash
-// (every 25 operations), every SaveVersion hash and finally the hash of every version on a fresh instance are
+// (after every operation for n <= 100, else every 25 operations), every SaveVersion hash and finally the hash of every version on a fresh instance are
 // compared with the independent reference.
 
 import (
@@ -71,7 +71,7 @@ func bigTreeHashes(n int, order string, cfg Cfg) (compared int, fail string) {
 	}
 	step := func(what string) string {
 		ops++
-		if ops%25 == 0 {
+		if ops%25 == 0 || n <= 100 {
 			if f := check(what); f != "" {
 				return f
 			}
